@@ -1,0 +1,26 @@
+//! Verification hooks. Compiled only with `--cfg rfsm_verif`; without it this module does not exist.
+//!
+//! A single process-wide callback receives `(kind, detail)` pairs from a few linearization points
+//! of the interpreter. The callback runs on the thread that performs the step.
+
+use std::sync::RwLock;
+
+pub type Hook = Box<dyn Fn(&str, &str) + Send + Sync>;
+
+static HOOK: RwLock<Option<Hook>> = RwLock::new(None);
+
+/// Installs (or removes) the hook.
+pub fn set_hook(hook: Option<Hook>) {
+    if let Ok(mut h) = HOOK.write() {
+        *h = hook;
+    }
+}
+
+/// Reports an event to the hook, if one is installed.
+pub fn emit(kind: &str, detail: &str) {
+    if let Ok(h) = HOOK.read() {
+        if let Some(f) = h.as_ref() {
+            f(kind, detail);
+        }
+    }
+}
